@@ -203,6 +203,8 @@ type driver struct {
 	clients map[string]*client
 	emu     sync.Mutex
 	sent    []string // sentinel strings planted in the fixture
+	etags   map[string]string
+	whips   map[string]string // name -> resource URL path
 }
 
 func (d *driver) emit(ev map[string]any) {
@@ -622,8 +624,28 @@ func (d *driver) http(name, method, path string, headers map[string]any, body st
 		d.emit(map[string]any{"ev": "http", "name": name, "status": -2, "etag": "", "body": err.Error(), "leaks": []string{}, "ctype": "", "allow": "", "members": [][]string{}})
 		return
 	}
+	if d.etags == nil {
+		d.etags = map[string]string{}
+	}
 	for k, v := range headers {
-		req.Header.Set(k, str(v))
+		val := str(v)
+		// "$etag:NAME" -> the ETag last served to request NAME, and variations on it
+		for _, form := range []string{"$etag:", "$weak:", "$list:", "$listnot:"} {
+			if strings.HasPrefix(val, form) {
+				t := d.etags[val[len(form):]]
+				switch form {
+				case "$etag:":
+					val = t
+				case "$weak:":
+					val = "W/" + t
+				case "$list:":
+					val = "\"bogus-1\", " + t + ", \"bogus-2\""
+				case "$listnot:":
+					val = "\"bogus-1\", \"bogus-2\""
+				}
+			}
+		}
+		req.Header.Set(k, val)
 	}
 	if user != "" || pass != "" {
 		req.SetBasicAuth(user, pass)
@@ -632,7 +654,7 @@ func (d *driver) http(name, method, path string, headers map[string]any, body st
 	resp, err := cl.Do(req)
 	if err != nil {
 		// no HTTP response at all (a handler panic closes the connection)
-		d.emit(map[string]any{"ev": "http", "name": name, "status": -1, "etag": "", "body": err.Error(), "leaks": []string{}, "ctype": "", "allow": "", "members": [][]string{}})
+		d.emit(map[string]any{"ev": "http", "name": name, "method": method, "path": path, "status": -1, "etag": "", "body": err.Error(), "leaks": []string{}, "ctype": "", "allow": "", "members": [][]string{}, "digest": d.stateDigest(), "parts": d.parts()})
 		return
 	}
 	defer resp.Body.Close()
@@ -650,6 +672,9 @@ func (d *driver) http(name, method, path string, headers map[string]any, body st
 	bs := string(b)
 	if len(bs) > 400 {
 		bs = bs[:400]
+	}
+	if et := resp.Header.Get("ETag"); et != "" {
+		d.etags[name] = et
 	}
 	members := [][]string{}
 	if name == "stats" && resp.StatusCode == 200 {
@@ -669,7 +694,132 @@ func (d *driver) http(name, method, path string, headers map[string]any, body st
 	}
 	d.emit(map[string]any{"ev": "http", "name": name, "method": method, "path": path, "status": resp.StatusCode, "etag": resp.Header.Get("ETag"), "members": members,
 		"body": bs, "leaks": leaks, "ctype": resp.Header.Get("Content-Type"), "allow": resp.Header.Get("Allow"),
-		"location": resp.Header.Get("Location")})
+		"location": resp.Header.Get("Location"), "digest": d.stateDigest(), "parts": d.parts()})
+}
+
+// digest of everything the administrative API may change
+func (d *driver) stateDigest() string {
+	return digest(filepath.Join(d.srv.root, "groups")) + "/" + digest(filepath.Join(d.srv.root, "data", "var"))
+}
+
+func hsh(x any) string {
+	b, _ := json.Marshal(x)
+	h := sha256.Sum256(b)
+	return hex.EncodeToString(h[:6])
+}
+
+// the stored definition of every group split into separately addressable parts: [key, hash] pairs
+// "g:user:alice:perm", "g:user:alice:pw", "g:wild:perm", "g:wild:pw", "g:keys", "g:rest", and "g:parses"
+func (d *driver) parts() [][]string {
+	out := [][]string{}
+	dir := filepath.Join(d.srv.root, "groups")
+	for _, f := range listing(dir) {
+		if !strings.HasSuffix(f, ".json") {
+			out = append(out, []string{"stray:" + f, "x"})
+			continue
+		}
+		g := strings.TrimSuffix(f, ".json")
+		b, _ := os.ReadFile(filepath.Join(dir, f))
+		var m map[string]any
+		if json.Unmarshal(b, &m) != nil {
+			out = append(out, []string{g + ":parses", "no"})
+			continue
+		}
+		out = append(out, []string{g + ":parses", "yes"})
+		if us, ok := m["users"].(map[string]any); ok {
+			for name, u := range us {
+				um, _ := u.(map[string]any)
+				out = append(out, []string{g + ":user:" + name + ":perm", hsh(um["permissions"])})
+				out = append(out, []string{g + ":user:" + name + ":pw", hsh(um["password"])})
+			}
+		}
+		if w, ok := m["wildcard-user"].(map[string]any); ok {
+			out = append(out, []string{g + ":wild:perm", hsh(w["permissions"])}, []string{g + ":wild:pw", hsh(w["password"])})
+		}
+		out = append(out, []string{g + ":keys", hsh(m["authKeys"])})
+		delete(m, "users")
+		delete(m, "wildcard-user")
+		delete(m, "authKeys")
+		out = append(out, []string{g + ":rest", hsh(m)})
+	}
+	sort.Slice(out, func(i, j int) bool { return out[i][0] < out[j][0] })
+	return out
+}
+
+// WHIP: a real SDP offer POSTed to the group's .whip endpoint; the session's resource URL is remembered
+func (d *driver) whip(name, grp, bearer, user, pass string) {
+	pc, err := newPC()
+	if err != nil {
+		return
+	}
+	defer pc.Close()
+	t, _ := webrtc.NewTrackLocalStaticRTP(webrtc.RTPCodecCapability{MimeType: webrtc.MimeTypeOpus, ClockRate: 48000}, "a", "s")
+	pc.AddTransceiverFromTrack(t, webrtc.RTPTransceiverInit{Direction: webrtc.RTPTransceiverDirectionSendonly})
+	offer, err := pc.CreateOffer(nil)
+	if err == nil {
+		err = pc.SetLocalDescription(offer)
+	}
+	if err != nil {
+		return
+	}
+	req, _ := http.NewRequest("POST", fmt.Sprintf("http://127.0.0.1:%d/group/%s/.whip", d.srv.port, grp), strings.NewReader(pc.LocalDescription().SDP))
+	req.Header.Set("Content-Type", "application/sdp")
+	if bearer != "" {
+		req.Header.Set("Authorization", "Bearer "+bearer)
+	} else if user != "" {
+		req.SetBasicAuth(user, pass)
+	}
+	cl := &http.Client{Timeout: 5 * time.Second}
+	resp, err := cl.Do(req)
+	if err != nil {
+		d.emit(map[string]any{"ev": "whip", "name": name, "status": -1, "location": "", "bearer": bearer})
+		return
+	}
+	io.Copy(io.Discard, resp.Body)
+	resp.Body.Close()
+	if d.whips == nil {
+		d.whips = map[string]string{}
+	}
+	loc := resp.Header.Get("Location")
+	if resp.StatusCode == 201 {
+		d.whips[name] = loc
+	}
+	d.emit(map[string]any{"ev": "whip", "name": name, "status": resp.StatusCode, "location": vt.B(loc != ""), "bearer": bearer, "creds": vt.B(bearer != "" || user != "")})
+}
+
+// a later request on a WHIP session: how = "same" | "none" | "wrong" bearer
+func (d *driver) whipreq(name, method, how, bearer string) {
+	loc := d.whips[name]
+	if loc == "" {
+		d.emit(map[string]any{"ev": "whipreq", "name": name, "method": method, "how": how, "status": -3, "gone": 0})
+		return
+	}
+	body := ""
+	if method == "PATCH" {
+		body = "a=ice-ufrag:x\r\na=ice-pwd:yyyyyyyyyyyyyyyyyyyyyy\r\n"
+	}
+	req, _ := http.NewRequest(method, fmt.Sprintf("http://127.0.0.1:%d%s", d.srv.port, loc), strings.NewReader(body))
+	if method == "PATCH" {
+		req.Header.Set("Content-Type", "application/trickle-ice-sdpfrag")
+	}
+	switch how {
+	case "same":
+		req.Header.Set("Authorization", "Bearer "+bearer)
+	case "wrong":
+		req.Header.Set("Authorization", "Bearer not-"+bearer)
+	}
+	cl := &http.Client{Timeout: 5 * time.Second}
+	resp, err := cl.Do(req)
+	st := -1
+	if err == nil {
+		st = resp.StatusCode
+		io.Copy(io.Discard, resp.Body)
+		resp.Body.Close()
+	}
+	if st == 200 && method == "DELETE" {
+		delete(d.whips, name)
+	}
+	d.emit(map[string]any{"ev": "whipreq", "name": name, "method": method, "how": how, "status": st})
 }
 
 func digest(root string) string {
@@ -703,7 +853,7 @@ func listing(root string) []string {
 
 func (d *driver) files() {
 	r := d.srv.root
-	d.emit(map[string]any{"ev": "files", "groups": digest(filepath.Join(r, "groups")), "data": digest(filepath.Join(r, "data")),
+	d.emit(map[string]any{"ev": "files", "digest": d.stateDigest(), "parts": d.parts(), "groups": digest(filepath.Join(r, "groups")), "data": digest(filepath.Join(r, "data")),
 		"outside": digest(filepath.Join(r, "outside")), "recordings": listing(filepath.Join(r, "recordings")),
 		"grouplist": listing(filepath.Join(r, "groups")), "rootlist": listing(r)})
 }
@@ -756,6 +906,8 @@ func (d *driver) runBeh(b beh, idx int) {
 		return
 	}
 	d.clients = map[string]*client{}
+	d.etags = map[string]string{}
+	d.whips = map[string]string{}
 	d.emit(map[string]any{"ev": "New", "name": b.Name, "idx": idx})
 	for si, st := range b.Steps {
 		if len(st) == 0 {
@@ -821,6 +973,10 @@ func (d *driver) runBeh(b beh, idx int) {
 				c.pmu.Unlock()
 				d.send(c, map[string]any{"type": "close", "id": str(st[2])}, true)
 			}
+		case "whip":
+			d.whip(str(st[1]), str(st[2]), str(st[3]), str(st[4]), str(st[5]))
+		case "whipreq":
+			d.whipreq(str(st[1]), str(st[2]), str(st[3]), str(st[4]))
 		case "files":
 			d.files()
 		case "restart":
